@@ -70,7 +70,7 @@ def run_harness(ctx, prop):
     return res
 
 
-def report_oracle_failures(ctx, failures, prop):
+def report_oracle_failures(ctx, failures, prop, binary=PKG):
     """Impl-level oracle failures of `prop` -> violations (KNOWN-FINDING when the signature is listed in
     known_findings.txt).  Returns (n_reported_as_violation_or_known, n_other_property)."""
     mine = [f for f in failures if f["property"] == prop]
@@ -96,7 +96,7 @@ def report_oracle_failures(ctx, failures, prop):
             {"input": f["input"], "input_bytes_hex": f["input_bytes_hex"], "input_file": keep,
              "class": f["class"], "signature": f.get("sig", ""), "category": f["category"],
              "origin": f["origin"], "original_len": f["original_len"], "ddmin_tests": f["ddmin_tests"],
-             "replay_cmd": "%s replay %s %d" % (vlib.harness_bin(PKG), keep, f["flags"])},
+             "replay_cmd": "%s replay %s %d" % (vlib.harness_bin(binary), keep, f["flags"])},
             found_input=True, fingerprint=fingerprint)
         if len(ctx.violations) > before:
             n_unknown += 1
